@@ -7,4 +7,5 @@ CHECKS = {
    design="6/C06"),
 }
 NOT_APPLICABLE = {}
+HOOK_COMMITS = ["a2dc73d", "b47fde1", "332711d"]
 NOT_YET = ["C01","C02","C03","C04","C05","C07","C08","C09","C10","C11","C12","C13","C14","C15","C16","C17","C18","C19","C20"]
